@@ -95,7 +95,7 @@ def _replay_one(cfg, path, opts, ops):
                         "opts": opts, "caller_ctx": real.caller_ctx, "uncaught": real.uncaught(),
                         "source": {f: real.src[f] for f in real.FORMS},
                         "sig": {"form": form, "act": s["act"], "cancelled_input": cancelled, "fields": fields,
-                                "cancel_kind": _cancel_kind(cfg, path[:i + 1]),
+                                "cancel_kind": _cancel_kind(cfg, path[:i + 1]), "sub_dec": bool(opts.get("sub_dec")),
                                 "exp_out": s["exp"]["out"]["s"],
                                 "obs_out": {f: obs[f]["out"]["s"] for f in bad}}}
         return None
@@ -181,7 +181,8 @@ def _trace_sig(t, bad, l):
         d = [f for f in ("dec", "nat") if bad["obs"][f] != bad["obs"]["dec" if f == "nat" else "nat"]]
         form = "dec+nat" if not d else "differ"
     return {"cancelled_input": any(e["a"] == "complete" and e["args"][1] == "cancel" for e in t["ev"][:l]),
-            "cancel_kind": _cancel_kind(t["cfg"], t["ev"][:l]), "forms": form}
+            "cancel_kind": _cancel_kind(t["cfg"], t["ev"][:l]), "forms": form,
+            "sub_dec": bool(t.get("opts", {}).get("sub_dec"))}
 
 
 MC_THOROUGH = {"MaxBody": 2, "TopOps": '{"eff", "await1", "list", "moment", "sub2", "ret", "raise", "rdctx", "setctx"}'}
@@ -227,8 +228,11 @@ def run(ctx):
     jobs = [(i + 1, ctx.seed * 1000003 + i, SUBS, i % 4 == 0) for i in range(n)]
     traces = framework.pool_map(random_trace, jobs)
     leaks = [t for t in traces if t["caller_ctx"] != 1]
-    for t in leaks[:3]:
-        ctx.violation({"kind": "c2s", "form": "ctx"}, {"trace": t})
+    for t in leaks[:20]:
+        sig = {"kind": "c2s", "act": "start", "caller_ctx_leak": True}
+        sig.update(_trace_sig(t, None, len(t["ev"])))
+        sig["forms"] = "differ" if any(e["obs"]["dec"] != e["obs"]["nat"] for e in t["ev"]) else "dec+nat"
+        ctx.violation(sig, {"trace": t, "caller_ctx": t["caller_ctx"]})
     ctx.validate("futures", "Trace_CoroLang", "Trace_CoroLang.cfg", traces, sig_fn=_trace_sig)
     ctx.cov["rule"] = ("paths: every program of the bounded grammar (top-level atoms and try/except/finally statements "
                        "with awaits, lists, dicts, moment, sub-coroutines, return, raise, context variable in every "
